@@ -39,9 +39,8 @@ fn fix_visibility_bundle(
         ),
     >,
 ) {
-    for (e, v) in query.iter() {
+    for (e, _) in query.iter() {
         cmd.entity(e)
-            .try_insert(*v)
             .try_insert(ViewVisibility::default())
             .try_insert(InheritedVisibility::default());
     }
@@ -53,7 +52,7 @@ fn fix_missing_global_transforms(
     query: Query<(Entity, &Transform), (Added<Transform>, Without<GlobalTransform>)>,
 ) {
     for (e, &t) in query.iter() {
-        cmd.entity(e).try_insert(t).try_insert(GlobalTransform::from(t));
+        cmd.entity(e).try_insert(GlobalTransform::from(t));
     }
 }
 
